@@ -306,10 +306,24 @@ fn derive_copy_shape(def: &CopyDef, symbol_table: &mut BTreeMap<Rc<str>, Shape>)
             types: NarrowingShape::Narrowed(potentials),
         }) => {
             // 1. Do the possible shapes include tuple, module, or import?
+            // A tuple among them gets the fields of the copy, like the copy
+            // of a plain tuple does.
+            let copy_fields = def
+                .fields
+                .iter()
+                .map(|(tok, _constraint, expr)| (tok.into(), expr.derive_shape(symbol_table)))
+                .collect::<TupleShape>();
             let filtered = potentials
                 .iter()
                 .filter(|v| may_be_copyable(v))
-                .cloned()
+                .map(|v| match v {
+                    Shape::Tuple(t_def) => {
+                        let mut fields = t_def.clone();
+                        fields.val.extend(copy_fields.iter().cloned());
+                        Shape::Tuple(fields)
+                    }
+                    other => other.clone(),
+                })
                 .collect::<Vec<Shape>>();
             if !filtered.is_empty() {
                 //  1.1 Then return those and strip the others.
